@@ -228,6 +228,10 @@ func (u *Unit) specIdent(e *SExpr, ctx *specCtx) (Val, error) {
 	if v, ok := ctx.env[e.Name]; ok {
 		return v, nil
 	}
+	// rangemap: the (possibly unnamed) map a range-over-map loop iterates over, in invariants of that loop
+	if e.Name == "rangemap" && ctx.iter != nil && ctx.iter.m.T != "" {
+		return ctx.iter.m, nil
+	}
 	if ctx.local != nil && !strings.HasPrefix(e.Name, "$") {
 		if v, ok := ctx.local(e.Name, ctx.cur); ok {
 			return v, nil
@@ -613,6 +617,10 @@ func (u *Unit) specCall(e *SExpr, ctx *specCtx) (Val, error) {
 		if err != nil {
 			return Val{}, err
 		}
+		if x.sort(u) == sSlice {
+			// a slice is allocated when its backing array is (the nil slice has array 0)
+			return Val{T: and(sx("<=", "0", sx("s_arr", x.T)), sx("<", sx("s_arr", x.T), u.hget(ctx.cur, "$alloc", sInt))), Ty: tBoolT}, nil
+		}
 		return Val{T: and(sx("<", "0", x.T), sx("<", x.T, u.hget(ctx.cur, "$alloc", sInt))), Ty: tBoolT}, nil
 	case "holds", "rholds", "unlocked":
 		x, err := u.specAddr(e.Args[0], ctx)
@@ -838,6 +846,13 @@ func (u *Unit) specCall(e *SExpr, ctx *specCtx) (Val, error) {
 		}
 		u.reg.declFun("str_lower", "Str", sStr)
 		return Val{T: sx("str_lower", x.T), Ty: tStrT}, nil
+	case "upper":
+		x, err := arg(0)
+		if err != nil {
+			return Val{}, err
+		}
+		u.reg.declFun("str_upper", "Str", sStr)
+		return Val{T: sx("str_upper", x.T), Ty: tStrT}, nil
 	case "contains":
 		a, err := arg(0)
 		if err != nil {
@@ -928,6 +943,18 @@ func (u *Unit) specCall(e *SExpr, ctx *specCtx) (Val, error) {
 		}
 		u.reg.declConst("unix_epoch_ns", sInt)
 		return Val{T: goDiv(sx("-", x.T, "unix_epoch_ns"), "1000000"), Ty: types.Typ[types.Int64]}, nil
+	case "timeunix", "timeunixmilli":
+		// the time.Time that time.Unix(n, 0) / time.UnixMilli(n) returns
+		x, err := arg(0)
+		if err != nil {
+			return Val{}, err
+		}
+		u.reg.declConst("unix_epoch_ns", sInt)
+		k := "1000000000"
+		if e.Name == "timeunixmilli" {
+			k = "1000000"
+		}
+		return Val{T: sx("+", "unix_epoch_ns", sx("*", x.T, k)), Ty: u.eng.timeType()}, nil
 	case "unixsec":
 		x, err := arg(0)
 		if err != nil {
